@@ -26,7 +26,9 @@ PLAN_FULL = [[1, 1], [2, 2], [3, 1], [8, 1], [16, 1], [0, 1]]
 
 CATALOGUE = [  # (est, var, uses rayon, uses seed) -- must match Gen_Determinism.tla (used for the random cases only)
     ("kmeans", "pp", 1, 1), ("kmeans", "random", 1, 1), ("kmeans", "pre", 1, 0), ("kmeans", "default", 1, 0),
-    ("kmeans", "default_random", 1, 0), ("kmeans_incr", "", 1, 1), ("gmm", "kmeans", 1, 1), ("gmm", "random", 0, 1),
+    ("kmeans", "default_random", 1, 0), ("kmeans", "pp_f32", 1, 1), ("kmeans", "random_f32", 1, 1), ("kmeans_incr", "", 1, 1),
+    ("tree_str", "gini", 0, 0), ("tree_str", "entropy", 0, 0), ("gnb_str", "", 0, 0), ("nb_incr", "gaussian", 0, 0),
+    ("nb_incr", "multinomial", 0, 0), ("gmm", "kmeans", 1, 1), ("gmm", "random", 0, 1),
     ("gmm", "default", 1, 0), ("dbscan", "", 0, 0), ("optics", "", 0, 0), ("hier", "average", 0, 0), ("hier", "single", 0, 0),
     ("hier", "complete", 0, 0), ("hier", "ward", 0, 0), ("ols", "icpt", 0, 0), ("ols", "noicpt", 0, 0), ("glm", "normal", 0, 0),
     ("glm", "poisson", 0, 0), ("glm", "gamma", 0, 0), ("isotonic", "", 0, 0), ("elasticnet", "enet", 0, 0),
@@ -185,7 +187,7 @@ def run(ctx):
     cases = vlib.tlc_gen(ctx, "Gen_Determinism", {"constants": GEN[ctx.tier], "invariants": ["Emit"]}, workers=4)
     ctx.exhaustive = True
     if not ctx.quick:
-        cases += random_cases(ctx, 3000)
+        cases += random_cases(ctx, 6000)
     vlib.number(cases)
     ctx.cases = len(cases)
     traces = execute(ctx, binp, cases)
@@ -197,21 +199,23 @@ def run(ctx):
         vlib.log("NOTE: %s has no kmeans.par hook: the schedule model is not bound to the code in this run "
                  "(run history layer only); see docs/reports/C20-hook.diff" % vlib.REPO)
     ctx.nontrivial = len({json.dumps([t["kind"], t["inp"]], sort_keys=True) for t in traces if nontrivial(t)})
-    small = sorted((t for t in traces if t["kind"] == "tie"), key=lambda t: len(json.dumps(t)))[:2]
-    vlib.sample(ctx, small)
+    small = sorted((t for t in traces if t["kind"] == "tie" and nontrivial(t) and len(t["ev"][0]["obs"]) >= 6),
+                   key=lambda t: len(json.dumps(t)))[:1]
+    hooked = sorted((t for t in traces if t["kind"] == "hook"), key=lambda t: len(json.dumps(t)))[:1]
+    vlib.sample(ctx, small + hooked)
     vlib.validate_with_findings(ctx, "Trace_Determinism", traces, constants=trace_constants(req_hook), chunk=1500)
     attach_diag(ctx)
     nruns = sum(len(t["ev"]) for t in traces)
     split = sum(1 for t in traces if t["kind"] == "hook" and nontrivial(t))
     ctx.extra.update({"runs_executed": nruns, "hook_events": nhook, "hook_bound": bool(req_hook and nhook > 0),
                       "hook_cases_with_loop_split_over_threads": split,
-                      "families": {k: sum(1 for t in traces if t["kind"] == k) for k in ("tie", "blob", "hook", "big")}})
+                      "families": {k: sum(1 for t in traces if t["kind"] == k) for k in ("tie", "frac", "blob", "hook", "big")}})
     ctx.rule = ("cases = configurations (estimator variant x data x seed) enumerated by TLC (Gen_Determinism: all labelled lattice "
                 "data sets up to the tier's size x tie-sensitive estimators; the whole catalogue x generated data; k-means family with "
                 "hook / on large data) [+ seeded random configurations in the thorough tier], each run under its plan of environments "
                 "(pool sizes 1,2,3,8,16 + global pool for rayon users, repetitions, 2-3 fresh processes). Non-trivial: tie family = "
                 "duplicate rows with different labels or tied class counts; hook family = some parallel loop observed on >= 2 threads; "
-                "big family = >= 1000 rows; blob family = every configuration; distinct by (family, input)")
+                "big family = >= 1000 rows; frac and blob families = every configuration; distinct by (family, input)")
     ctx.trusted = ["TLC + CommunityModules Json", "harness digests (FNV-1a over exact bit patterns; canonical serde JSON of whole models)",
                    "harness data generator (integer LCG) -- its output is digested into every run, the premise 'same data' is checked by TLC",
                    "linfa::verif_hook event buffer (arrival order under a mutex)"]
